@@ -343,7 +343,10 @@ func runC16(res *lib.Result, tier string, seed int64, args []string) error {
 			continue
 		}
 		if impl != model {
-			res.AddViolation("impl-vs-model", fmt.Sprintf("real parser %q, model %q", lib.Trunc(impl, 300), lib.Trunc(model, 300)), "---@"+line, true)
+			// a valid line of the documented syntax that the real parser no longer understands with its documented
+			// structure is a failing input of the property itself, not only a broken correspondence
+			failing := valid && !g.nestedArray && dropP(impl) != want
+			res.AddViolation("impl-vs-model", fmt.Sprintf("real parser %q, model %q", lib.Trunc(impl, 300), lib.Trunc(model, 300)), "---@"+line, !failing)
 			continue
 		}
 		if !valid {
